@@ -38,6 +38,12 @@ fn closures() -> Vec<(&'static str, Vec<&'static str>, usize)> {
         ("escaping-closure-do-rebind", vec!["mk = base => do {\n  step = [base]\n  return n => do {\n    step = [step, 3]\n    return [n, base, step]\n  }\n}", "f = mk(a)"], 1),
         ("escaping-closure", vec!["mk = base => do {\n  step = [base, b]\n  return n => [n, base, step]\n}", "f = mk(a)"], 1),
         ("do-rebind-two-args", vec!["f = (x, y) => do {\n  a = [a, x, y]\n  return a\n}"], 2),
+        // a nested lambda literal whose parameter is named like a captured name that the enclosing
+        // body uses only *after* the literal
+        ("nested-lambda-param-then-capture", vec!["f = x => [((a) => [a, b])(x), a]"], 1),
+        ("callback-param-then-capture", vec!["f = x => [[x, x] via (a => [a]), a, b]"], 1),
+        ("factory-nested-lambda-param-then-capture", vec!["mk = (k) => (v) => [[v] via (k => [k]), k, b]", "f = mk(a)"], 1),
+        ("nested-optional-rest-params-then-capture", vec!["f = x => [((a?, ...b) => [a, b])(x), a, b]"], 1),
         // a parameter named like the function itself (required, optional, rest): the parameter wins
         ("param-named-like-function", vec!["f = f => [a, f]"], 1),
         ("optional-param-named-like-function", vec!["f = (f?) => [a, f]"], 1),
